@@ -66,6 +66,22 @@ fn wide_table(name: &str, ncols: usize) -> (TableSpec, Schema) {
     (spec, Schema { table: name.to_owned(), cols })
 }
 
+/// a line whose numbers are few and large: REALs of 2^53 and INTs around it (distinct integers that coincide as doubles), so that
+/// a join of a REAL key with an INT key - which pairs nothing today - has several candidates per key should it ever pair by value
+fn wide_line_big(rng: &mut Rng, s: &Schema) -> String {
+    let mut parts = Vec::new();
+    for (n, t) in &s.cols {
+        let v = match t {
+            Ty::Text => json_str(&format!("g{}", rng.below(3))),
+            Ty::Int => rng.pick(&["9007199254740992", "9007199254740993", "3", "4", "9007199254740994"]).to_string(),
+            Ty::Real => rng.pick(&["9007199254740992.0", "3.0", "4.0", "9007199254740994.0"]).to_string(),
+            _ => rng.chance(1, 2).to_string(),
+        };
+        parts.push(format!("{}:{}", json_str(n), v));
+    }
+    format!("{{{}}}", parts.join(","))
+}
+
 fn wide_line(rng: &mut Rng, s: &Schema, groups: usize) -> String {
     let mut parts = Vec::new();
     for (n, t) in &s.cols {
@@ -122,7 +138,7 @@ impl Monitor for C18 {
         let (spec, schema) = wide_table(main, ncols);
         let groups = 20 + rng.below(40);
         let n = 30 + rng.below(120);
-        let lines: Vec<String> = (0..n).map(|_| wide_line(rng, &schema, groups)).collect();
+        let mut lines: Vec<String> = (0..n).map(|_| wide_line(rng, &schema, groups)).collect();
         let mut defs = vec![spec.text()];
         let extra = 1 + rng.below(8);
         for e in 0..extra { let (s, _) = wide_table(&format!("other{}", e), 3 + rng.below(4)); defs.push(s.text()); }
@@ -178,6 +194,13 @@ impl Monitor for C18 {
                 joined = Some((0..un).map(|_| wide_line(rng, &uschema, 6)).collect());
                 sel.projs.push((E::Star, None));
                 sel.join = Some(Join { outer: rng.chance(1, 3), table: "u".into(), file: "@JOINED@".into(), left: (main.into(), "k0".into()), right: ("u".into(), "k0".into()) });
+                // sometimes the keys are numbers of different types (REAL on one side, INT on the other), few and large
+                if rng.chance(1, 3) {
+                    joined = Some((0..un).map(|_| wide_line_big(rng, &uschema)).collect());
+                    lines = (0..n).map(|_| wide_line_big(rng, &schema)).collect();
+                    let (l, r) = if rng.chance(1, 2) { ("r2", "i1") } else { ("i1", "r2") };
+                    sel.join = Some(Join { outer: rng.chance(1, 2), table: "u".into(), file: "@JOINED@".into(), left: (main.into(), l.into()), right: ("u".into(), r.into()) });
+                }
             }
             _ => {
                 sel.distinct = true;
